@@ -14,8 +14,8 @@ from ..pegcheck import Jobs, default_case, run_impl, run_oracle, spec_outcome
 from .c06 import untag_names
 
 
-def shapes(idrule):
-    i = call('id')
+def shapes(idrule, rname='id'):
+    i = call(rname)
     kw = tok('if')
     return {
         'closure': seq(star(i), eof()),
@@ -56,6 +56,11 @@ def universe(tier):
         items.append({'g': g, 'texts': texts, 'label': f'{name}/name+nomemo', 'ic': 'off', 'kws': ['if', 'x']})
         g = grammar(rule('s', e), rule('id', idpat, isname=True, params=['T']), keywords=['if', 'x'])
         items.append({'g': g, 'texts': texts, 'label': f'{name}/name+params', 'ic': 'setting', 'kws': ['if', 'x']})
+    # ... nor of the rule's name: a capitalised (token) rule can be a @name rule too
+    for name in ('closure', 'kw-then-name', 'closure-alt'):
+        e = shapes(idpat, 'Ident')[name]
+        g = grammar(rule('s', e), rule('Ident', idpat, isname=True), keywords=['if', 'x'])
+        items.append({'g': g, 'texts': texts, 'label': f'{name}/capitalised-name-rule', 'ic': 'off', 'kws': ['if', 'x'], 'rules': ['s', 'Ident']})
     quoted = grammar(rule('s', seq(star(call('id')), eof())), rule('id', idpat, isname=True), keywords=['if', 'fi'])
     items.append({'g': quoted, 'texts': texts, 'label': 'quoted-keywords', 'ic': 'off', 'kws': ['if', 'fi'], 'quoted': True})
     return items
@@ -75,7 +80,7 @@ def run(tier):
             ebnf = ebnf.replace('@@keyword :: if', "@@keyword :: 'if'").replace('@@keyword :: fi', '@@keyword :: "fi"')
         settings = {'ignorecase': True} if it['ic'] == 'setting' else {}
         for backend in ('model', 'generated'):
-            cases.append(default_case(ebnf, it['texts'], settings=settings, rules=['s', 'id'], kinds=['none', 'tag'],
+            cases.append(default_case(ebnf, it['texts'], settings=settings, rules=it.get('rules', ['s', 'id']), kinds=['none', 'tag'],
                                       backend=backend, label=it['label'], item=idx))
     r, spec = run_oracle(jobs)
     ck.add_tlc(r, 'PegSemBatch')
